@@ -59,8 +59,12 @@ pub fn generate(prop: &str, seed: u64, tier: Tier) -> Program {
         "C13" => Program::Net(net_gen::gen_c13(&mut rng, tier)),
         "C16" => Program::Net(net_gen::gen_c16(&mut rng, tier)),
         "C20" => Program::Net(net_gen::gen_c20(&mut rng, tier)),
-        "C05" => Program::Net(asy::gen_c05(&mut rng, tier)),
-        "C06" => Program::Net(asy::gen_c06(&mut rng, tier)),
+        "C05" | "C06" => {
+            let mut p = if prop == "C05" { asy::gen_c05(&mut rng, tier) } else { asy::gen_c06(&mut rng, tier) };
+            // one program in 25: the timer futures are created on helper threads and handed to the tasks
+            p.timers_elsewhere = rng.chance(1, 25);
+            Program::Net(p)
+        }
         _ => {
             eprintln!("dsim: no engine for property {prop}");
             std::process::exit(2);
@@ -136,7 +140,10 @@ fn execute_net(prop: &str, p: &net::NetProgram) -> RunInfo {
     }
     match prop {
         "C09" => net_oracles::check_c09(p, &res, &mut info),
-        "C05" | "C06" => asy::check_tasks(p, &res, prop, &mut info),
+        "C05" | "C06" => {
+            info.probe_n("timer_created_on_another_thread", asy::timers_made_elsewhere());
+            asy::check_tasks(p, &res, prop, &mut info);
+        }
         "C16" => net_oracles::check_c16(p, &res, &mut info),
         "C13" if p.blocks.first() == Some(&7) => {
             info.probe("joined_block_handler_fails_after_asking_for_a_restart");
